@@ -248,6 +248,9 @@ case("F58 bool max given as an Aggregation object", f58, lambda r: r == "bool")
 # F59
 case("F59 complex min of a chunked array", lambda: groupby_reduce(da.from_array(np.array([1 + 1j, 2 - 1j, 3 + 0j, -1 + 2j, 0.5j, 4 + 4j]), chunks=2), np.array([0, 0, 1, 1, 2, 2]), func="min", engine="numpy", method="map-reduce", reindex=True)[0].compute().tolist(), lambda r: r == [1 + 1j, -1 + 2j, 0.5j])
 
+# F60
+case("F60 nanargmax of a 2-D in-memory array with a NaN fill", lambda: groupby_reduce(np.arange(6, dtype=np.float32).reshape(3, 2), np.zeros(2, int), func="nanargmax", fill_value=np.nan)[0].tolist(), lambda r: r == [[1.0], [1.0], [1.0]])
+
 bad = 0
 for name, verdict in results:
     print(f"{name:55s} {verdict}")
